@@ -150,6 +150,34 @@ theorem disabled_roundtrip (k : Nat) (hk : 1 ≤ k) (d : Word) (hd : d.length = 
     DecOut.mk.injEq, and_true, encode_eq, List.drop_one, List.tail_cons]
   exact h
 
+/-! ## The same statements on signal VALUES (what the ports carry and what the correspondence compares):
+    data `x < 2^k`, code word `cw = value of ECCEncoder.o`, injected error `cw ^ (1 << j)`. -/
+
+/-- `flipAt` is XOR with `1 << j` on the value of the signal. -/
+theorem flip_is_xor_one_shl (w : Word) (j : Nat) (hj : j < w.length) :
+    bitsToNat (flipAt w j) = bitsToNat w ^^^ 2 ^ j :=
+  bitsToNat_flipAt w j hj
+
+/-- Single error, value form: `ECCDecoder.o = x`, `sec = (j ≠ 0)`, `ded = 0`. -/
+theorem sec_correct_value (k : Nat) (hk : 1 ≤ k) (x : Nat) (hx : x < 2 ^ k) (j : Nat) (hj : j ≤ computeN k) :
+    bitsToNat (decode true (flipAt (encode k (natToBits k x)) j)).o = x ∧
+    (decode true (flipAt (encode k (natToBits k x)) j)).sec = decide (j ≠ 0) ∧
+    (decode true (flipAt (encode k (natToBits k x)) j)).ded = false := by
+  rw [sec_correct k hk _ (natToBits_length k x) j hj]
+  exact ⟨bitsToNat_natToBits k x hx, rfl, rfl⟩
+
+/-- No error / checking disabled, value form. -/
+theorem roundtrip_value (k : Nat) (hk : 1 ≤ k) (x : Nat) (hx : x < 2 ^ k) (en : Bool) :
+    bitsToNat (decode en (encode k (natToBits k x))).o = x ∧
+    (decode en (encode k (natToBits k x))).sec = false ∧ (decode en (encode k (natToBits k x))).ded = false := by
+  cases en with
+  | true =>
+    rw [no_error_clean k hk _ (natToBits_length k x)]
+    exact ⟨bitsToNat_natToBits k x hx, rfl, rfl⟩
+  | false =>
+    rw [disabled_roundtrip k hk _ (natToBits_length k x)]
+    exact ⟨bitsToNat_natToBits k x hx, rfl, rfl⟩
+
 /-! ## Non-vacuity: concrete instances (k = 4: m = 3, n = 7, 8-bit code word; k = 11: m = 4, n = 15) -/
 
 example : computeMN 4 = (3, 7) ∧ computeMN 11 = (4, 15) ∧ computeMN 128 = (8, 136) := by decide
